@@ -512,6 +512,17 @@ func spec_loadInv(u *Universe, local map[string]bool, direct map[string]bool, ro
 //@   loop 7 invariant spec_loadInv(u, localPkgPaths, directPkgPaths, rootPkgPaths)
 //@   note Load records, for every local package, the hash of its WHOLE directory (nothing filtered out); a package is local iff its module is the module of some entrypoint (decided against the COMPLETE set of root modules: registration starts only after every entrypoint has been seen, which is what makes the answer independent of the order of the entrypoints), and it is flagged direct iff it is itself an entrypoint
 
+//@ func Universe.LocateInPackage
+//@   props C13
+//@   requires u != nil && u.fset != nil
+//@   assume forall q string :: has(u.pkgs, q) ==> u.pkgs[q] != nil
+//@   note (assume) the universe registers non-nil packages only (Load)
+//@   assigns *
+//@   preserves pkg/types.Universe.
+//@   ensures result != nil ==> result.SourceDir() == filepath.Dir(u.fset.Position(pos).Filename)
+//@   loop 1 invariant u != nil && u.fset != nil
+//@   note whichever order the package table is visited in, a package is returned only if ITS source directory is the directory of the file containing pos (never a package matched by name or by a path suffix)
+
 //@ func TypeRef.Walk
 //@   trusted
 //@   iterator
